@@ -1,0 +1,118 @@
+/* -*- C++ -*-
+ * Verification hooks. Everything in this file is compiled only with -DDANMAR_CPPCHECK_VERIF and is
+ * inert unless the named environment variable is set.
+ *
+ *  VERIF_SCHED_SEED=<n> [VERIF_SCHED_MAXUS=<us>]   seeded delays at executor scheduling points
+ *  VERIF_CRASH_AT=<kind>:<k>                        _exit(137) at the k-th (1-based) event of <kind>
+ *                                                   kinds: cacheopen, cachewrite, cacheclose, finding, filedone
+ *  VERIF_WORKER_FAULT=<substr>:<k>:<segv|exit|abort>  in the process executor's worker whose file name contains
+ *                                                   <substr>: die after the k-th complete message (k=0: before the first)
+ */
+#ifndef verifhookHPP
+#define verifhookHPP
+
+#ifdef DANMAR_CPPCHECK_VERIF
+
+#include <atomic>
+#include <csignal>
+#include <cstdlib>
+#include <cstring>
+#include <string>
+#include <unistd.h>
+
+namespace verifhook {
+    inline unsigned long mix(unsigned long x) {
+        x ^= x >> 33; x *= 0xff51afd7ed558ccdUL; x ^= x >> 33; x *= 0xc4ceb9fe1a85ec53UL; x ^= x >> 33;
+        return x;
+    }
+
+    inline void schedPoint(const char *point) {
+        static const char *seedEnv = std::getenv("VERIF_SCHED_SEED");
+        if (!seedEnv)
+            return;
+        static const unsigned long seed = std::strtoul(seedEnv, nullptr, 10);
+        static const unsigned long maxus = std::getenv("VERIF_SCHED_MAXUS") ? std::strtoul(std::getenv("VERIF_SCHED_MAXUS"), nullptr, 10) : 2000UL;
+        static std::atomic<unsigned long> counter{0};
+        unsigned long h = seed * 1000003UL + counter.fetch_add(1) * 7919UL + static_cast<unsigned long>(getpid());
+        for (const char *p = point; *p; ++p)
+            h = h * 131UL + static_cast<unsigned char>(*p);
+        const unsigned long us = maxus ? mix(h) % (maxus + 1) : 0;
+        if (us)
+            usleep(static_cast<useconds_t>(us));
+    }
+
+    // returns true when the process has to die now (the caller flushes what a real crash would have left on disk first)
+    inline bool crashNow(const char *kind) {
+        static const char *env = std::getenv("VERIF_CRASH_AT");
+        if (!env)
+            return false;
+        static std::atomic<long> counter{0};
+        const char *colon = std::strchr(env, ':');
+        if (!colon)
+            return false;
+        if (std::strlen(kind) != static_cast<std::size_t>(colon - env) || std::strncmp(env, kind, colon - env) != 0)
+            return false;
+        const long k = std::strtol(colon + 1, nullptr, 10);
+        return counter.fetch_add(1) + 1 == k;
+    }
+    inline void crashPoint(const char *kind) {
+        if (crashNow(kind))
+            _exit(137);
+    }
+
+    struct WorkerFault {
+        bool active = false;
+        long k = -1;
+        int mode = 0; // 0 segv, 1 exit(3), 2 abort
+        long sent = 0;
+    };
+    inline WorkerFault &workerFault() {
+        static WorkerFault wf;
+        return wf;
+    }
+    inline void workerDie() {
+        const WorkerFault &wf = workerFault();
+        if (wf.mode == 1)
+            _exit(3);
+        std::signal(SIGSEGV, SIG_DFL);
+        std::signal(SIGABRT, SIG_DFL);
+        if (wf.mode == 2)
+            std::abort();
+        std::raise(SIGSEGV);
+        _exit(3);
+    }
+    // called in the forked worker before it starts analysing `file`
+    inline void workerStart(const std::string &file) {
+        const char *env = std::getenv("VERIF_WORKER_FAULT");
+        if (!env)
+            return;
+        const std::string s(env);
+        const std::string::size_type p2 = s.rfind(':');
+        if (p2 == std::string::npos || p2 == 0)
+            return;
+        const std::string::size_type p1 = s.rfind(':', p2 - 1);
+        if (p1 == std::string::npos)
+            return;
+        if (file.find(s.substr(0, p1)) == std::string::npos)
+            return;
+        WorkerFault &wf = workerFault();
+        wf.active = true;
+        wf.k = std::strtol(s.substr(p1 + 1, p2 - p1 - 1).c_str(), nullptr, 10);
+        const std::string mode = s.substr(p2 + 1);
+        wf.mode = (mode == "exit") ? 1 : (mode == "abort") ? 2 : 0;
+        if (wf.k == 0)
+            workerDie();
+    }
+    // called after a complete message has been written to the pipe
+    inline void workerMessageSent() {
+        WorkerFault &wf = workerFault();
+        if (!wf.active)
+            return;
+        if (++wf.sent == wf.k)
+            workerDie();
+    }
+}
+
+#endif // DANMAR_CPPCHECK_VERIF
+
+#endif // verifhookHPP
